@@ -28,6 +28,7 @@ from harness import core
 LOG: list = []          # filled by the debug callbacks, in program order
 _CACHE: dict = {}       # jitted solve wrappers, optimizers, classes (per worker process)
 NAN = "nan"
+INF = "inf"      # +infinity (only ever in a parameter leaf no loss term reads: see harness/c07.py)
 
 
 # ------------------------------------------------------------------------------------------------
@@ -46,7 +47,9 @@ def vstr(x) -> str:
     if x != x:
         return NAN
     if math.isinf(x):
-        raise ValueError("infinite value in an exact program")
+        if x > 0:
+            return INF
+        raise ValueError("negative infinite value in an exact program")
     return qs(x)
 
 
@@ -220,8 +223,9 @@ def build_params(pspec):
 
     def arr(v):
         if isinstance(v, list):
-            return jnp.asarray([float("nan") if x == NAN else fl(x) for x in v], dtype=jnp.float64)
-        return jnp.asarray(float("nan") if v == NAN else fl(v), dtype=jnp.float64)
+            return jnp.asarray([float("nan") if x == NAN else float("inf") if x == INF else fl(x) for x in v],
+                               dtype=jnp.float64)
+        return jnp.asarray(float("nan") if v == NAN else float("inf") if v == INF else fl(v), dtype=jnp.float64)
 
     return Params(nn_params={k: arr(v) for k, v in pspec["nn"].items()},
                   eq_params={k: arr(v) for k, v in pspec["eq"].items()})
